@@ -2,21 +2,36 @@
 #ifndef SIM_BULK_H
 #define SIM_BULK_H
 #include <string>
-struct Bulk { const char *name; const char *type; const char *decode_as; std::string (*xer)(size_t k); };
+#include <vector>
+#include <cstdint>
+// xer: XER text of the value (encoded by the library in every syntax); raw: bytes written by hand for ONE syntax (raw_syntax is an
+// int so that this header does not depend on core.h: 1 = BER), for inputs the library's encoders never produce
+struct Bulk { const char *name; const char *type; const char *decode_as; std::string (*xer)(size_t k); std::vector<uint8_t> (*raw)(size_t k); int raw_syntax; long heap_a = 0; /* bytes of heap per input byte allowed for this template; 0 = the default of the bulk runs */ };
+static inline std::vector<uint8_t> bulk_segments(uint8_t outer, uint8_t inner, size_t k, bool empty) {     // constructed string of k tiny primitive segments
+    std::vector<uint8_t> o; o.reserve(3 * k + 8); o.push_back(outer); o.push_back(0x80);
+    for(size_t i = 0; i < k; i++) { o.push_back(inner); if(empty && inner == 0x04) o.push_back(0); else if(inner == 0x03) { o.push_back(1); o.push_back(0); } else { o.push_back(1); o.push_back(0x41); } }
+    o.push_back(0); o.push_back(0); return o;
+}
 static inline std::string hexrun(size_t k) { return std::string(2 * k, 'A'); }
 static const Bulk BULKS[] = {
-    {"bigstr", "BigStr", "BigStr", [](size_t k) { return "<BigStr>" + hexrun(k) + "</BigStr>"; }},
-    {"bigbits", "BigBits", "BigBits", [](size_t k) { return "<BigBits>" + std::string(8 * k, '1') + "</BigBits>"; }},
-    {"bigutf", "BigUtf", "BigUtf", [](size_t k) { return "<BigUtf>" + std::string(k, 'x') + "</BigUtf>"; }},
-    {"unilong", "UniLong", "UniLong", [](size_t k) { return "<UniLong>" + std::string(k / 4, 'x') + "</UniLong>"; }},
-    {"bmplong", "BmpLong", "BmpLong", [](size_t k) { return "<BmpLong>" + std::string(k / 2, 'x') + "</BmpLong>"; }},
-    {"blob.root", "Blob", "Blob", [](size_t k) { return "<Blob><a>" + hexrun(k) + "</a><c></c></Blob>"; }},
-    {"blob.addition", "Blob", "Blob", [](size_t k) { return "<Blob><a>00</a><c></c><d>" + std::string(k, 'x') + "</d></Blob>"; }},
-    {"blob.addition-skipped", "Blob", "BlobV1", [](size_t k) { return "<Blob><a>00</a><c></c><d>" + std::string(k - k % 3, 'x') + "</d></Blob>"; }},
-    {"extch.addition", "ExtCh", "ExtCh", [](size_t k) { return "<ExtCh><b>" + hexrun(k) + "</b></ExtCh>"; }},
-    {"octrange", "OctRange", "OctRange", [](size_t k) { return "<OctRange>" + hexrun(k < 70000 ? k : 70000) + "</OctRange>"; }},
+    {"bigstr", "BigStr", "BigStr", [](size_t k) { return "<BigStr>" + hexrun(k) + "</BigStr>"; }, nullptr, 0},
+    {"bigbits", "BigBits", "BigBits", [](size_t k) { return "<BigBits>" + std::string(8 * k, '1') + "</BigBits>"; }, nullptr, 0},
+    {"bigutf", "BigUtf", "BigUtf", [](size_t k) { return "<BigUtf>" + std::string(k, 'x') + "</BigUtf>"; }, nullptr, 0},
+    {"unilong", "UniLong", "UniLong", [](size_t k) { return "<UniLong>" + std::string(k / 4, 'x') + "</UniLong>"; }, nullptr, 0},
+    {"bmplong", "BmpLong", "BmpLong", [](size_t k) { return "<BmpLong>" + std::string(k / 2, 'x') + "</BmpLong>"; }, nullptr, 0},
+    {"blob.root", "Blob", "Blob", [](size_t k) { return "<Blob><a>" + hexrun(k) + "</a><c></c></Blob>"; }, nullptr, 0},
+    {"blob.addition", "Blob", "Blob", [](size_t k) { return "<Blob><a>00</a><c></c><d>" + std::string(k, 'x') + "</d></Blob>"; }, nullptr, 0},
+    {"blob.addition-skipped", "Blob", "BlobV1", [](size_t k) { return "<Blob><a>00</a><c></c><d>" + std::string(k - k % 3, 'x') + "</d></Blob>"; }, nullptr, 0},
+    {"extch.addition", "ExtCh", "ExtCh", [](size_t k) { return "<ExtCh><b>" + hexrun(k) + "</b></ExtCh>"; }, nullptr, 0},
+    {"octrange", "OctRange", "OctRange", [](size_t k) { return "<OctRange>" + hexrun(k < 70000 ? k : 70000) + "</OctRange>"; }, nullptr, 0},
+    // recursion through an extension addition (an open type in OER / PER): 40 levels around the payload
+    {"recext.deep-payload", "RecExt", "RecExt", [](size_t k) { std::string o = "<RecExt>"; for(int i = 0; i < 40; i++) o += "<v>00</v><next>"; o += "<v>" + hexrun(k) + "</v>"; for(int i = 0; i < 40; i++) o += "</next>"; return o + "</RecExt>"; }, nullptr, 0},
+    // BER only: constructed strings made of very many tiny segments (the decoder's per-segment bookkeeping)
+    {"bigstr.ber-empty-segments", "BigStr", "BigStr", nullptr, [](size_t k) { return bulk_segments(0x24, 0x04, k / 2, true); }, 1, 8},
+    {"bigstr.ber-tiny-segments", "BigStr", "BigStr", nullptr, [](size_t k) { return bulk_segments(0x24, 0x04, k / 3, false); }, 1, 8},
+    {"bigbits.ber-tiny-segments", "BigBits", "BigBits", nullptr, [](size_t k) { return bulk_segments(0x23, 0x03, k / 3, false); }, 1, 8},
     // Sim3: payload inside an information-object-class open type (a decoder that is not restartable re-reads it on every delivery)
-    {"frame.str", "Frame", "Frame", [](size_t k) { return "<Frame><ident>2</ident><value><Str>" + std::string(k, 'x') + "</Str></value></Frame>"; }},
+    {"frame.str", "Frame", "Frame", [](size_t k) { return "<Frame><ident>2</ident><value><Str>" + std::string(k, 'x') + "</Str></value></Frame>"; }, nullptr, 0},
 };
 static const int NBULK = sizeof(BULKS) / sizeof(BULKS[0]);
 #endif
